@@ -338,8 +338,12 @@ else:
             return ([], kwargs)
 
         def argument(self, value, pos_or_name):
-            assert isinstance(pos_or_name, str)
-            return getattr(value, pos_or_name)
+            if isinstance(pos_or_name, str):
+                return getattr(value, pos_or_name)
+            else:
+                # positional argument in the source code
+                args = [field for field in attrs.fields(type(value)) if field.init]
+                return getattr(value, args[pos_or_name].name)
 
 
 try:
@@ -439,8 +443,11 @@ class NamedTupleAdapter(GenericCallAdapter):
         )
 
     def argument(self, value, pos_or_name):
-        assert isinstance(pos_or_name, str)
-        return getattr(value, pos_or_name)
+        if isinstance(pos_or_name, str):
+            return getattr(value, pos_or_name)
+        else:
+            # positional argument in the source code
+            return value[pos_or_name]
 
 
 class DefaultDictAdapter(GenericCallAdapter):
@@ -457,7 +464,9 @@ class DefaultDictAdapter(GenericCallAdapter):
         )
 
     def argument(self, value, pos_or_name):
-        assert isinstance(pos_or_name, int)
+        if isinstance(pos_or_name, str):
+            # defaultdict(list, key=value)
+            return value[pos_or_name]
         if pos_or_name == 0:
             return value.default_factory
         elif pos_or_name == 1:
